@@ -48,14 +48,22 @@ func vAssertPlacements(label string, c *Coordinator, S, K int, infos []*shardInf
 
 // VRelief: phase lemma for alleviateShards from an arbitrary well-formed pre-state.
 // mode 1: no head-series limit (process-series relief only - which needs K >= 2 to move anything)
-// and every shard in sync.
+// and every shard in sync. mode 2: a head-series limit that no shard has reached (so that only
+// process-series relief runs, but has to respect the head limit of the receiving shard), every
+// shard in sync.
 func VRelief(S, K, mode int) {
 	c := &Coordinator{option: vOption(), log: vLogger()}
 	zzv.Assume(!c.option.DisableAlleviate)
 	if mode == 1 {
 		zzv.Assume(c.option.MaxHeadSeries == 0)
 	}
-	infos, pre := vShardInfos(S, K, mode == 1)
+	infos, pre := vShardInfos(S, K, mode != 0)
+	if mode == 2 {
+		zzv.Assume(c.option.MaxHeadSeries > 0)
+		for _, si := range infos {
+			zzv.Assume(si.runtime.HeadSeries < c.option.MaxHeadSeries)
+		}
+	}
 	head0, proc0 := make([]int64, S), make([]int64, S)
 	for i := range infos {
 		head0[i], proc0[i] = infos[i].runtime.HeadSeries, infos[i].runtime.ProcessSeries
